@@ -112,6 +112,14 @@ func c08Cuts(framing string, wireLen int, limit int64) []int {
 	case "empty-frags":
 		h := wireLen / 2
 		return []int{0, h, h, wireLen}
+	case "many-empty-frags":
+		// 150 empty continuation frames in the middle of the (compressed) data
+		h := wireLen / 2
+		cuts := make([]int, 0, 151)
+		for i := 0; i < 151; i++ {
+			cuts = append(cuts, h)
+		}
+		return cuts
 	}
 	return nil
 }
@@ -423,7 +431,7 @@ func c08DeclaredOverLimit(c *fw.Ctx, cs c08Case) {
 // ------------------------------------------------------------ enumeration ---
 
 var c08Limits = []int64{0, 1, 2, 125, 126, 4096, c08DefaultLimit, 65536, -1}
-var c08Framings = []string{"one", "split-at-limit", "bytes", "empty-frags"}
+var c08Framings = []string{"one", "split-at-limit", "bytes", "empty-frags", "many-empty-frags"}
 var c08Comps = []string{"off", "zeros", "no-takeover", "bfinal", "stored-open"}
 var c08APIs = []string{"read", "reader", "netconn"}
 
